@@ -512,3 +512,26 @@ def enum_switch_after_call(cfg, call_block):
     if sw["k"] != "Switch" or dl is None or op_local(sw["on"]) != dl:
         return None
     return {v: bb for v, bb in sw["targets"]}, sw["otherwise"]
+
+
+def arg_variant(du, t, idx):
+    """If argument idx of call t is (a move of a local assigned) a field-less enum
+    variant aggregate or a constant naming one, return the variant name."""
+    a = t.get("args", [])
+    if len(a) <= idx:
+        return None
+    op = a[idx]
+    c = op_const(op)
+    if isinstance(c, str) and "cp" not in op and "mv" not in op:
+        return c.split("::")[-1]
+    l = op_local(op)
+    if l is None:
+        return None
+    for kind, i, j, x in du.defs.get(l, []):
+        if kind == "stmt" and x.get("k") == "Agg" and "variant" in x:
+            return x["variant"]
+        if kind == "stmt" and x.get("k") == "Use":
+            c = op_const(x["a"])
+            if isinstance(c, str):
+                return c.split("::")[-1]
+    return None
